@@ -10,6 +10,9 @@ import PdshVerif.Pcp.MeetsSpec
 import PdshVerif.Pcp.Overwrite
 import PdshVerif.Pcp.Merge
 import PdshVerif.Pcp.Recopy
+import PdshVerif.Pcp.FanOut
+import PdshVerif.Pcp.DeepSession
+import PdshVerif.Props.C03
 
 /-! # C11  pdcp/rpdcp reproduce the source tree exactly on every target
 
@@ -81,20 +84,48 @@ write faults (`o.fsize = none`).  Times are in microseconds, the resolution of t
                         system ends exactly as if those sources had not been named (induction `session_items`,
                         Pcp/Mixed.lean).  Generalises `error_isolated_refused_dir` (one refused directory, first) and
                         lifts `error_isolated_open` from the byte stream `itemsBytes` to the dialogue.
-* Pcp/Statics.lean   -- what K receivers of one process share besides the file system: the static objects and the
-                        process-wide calls of pcp_server.c, compared with the translation unit on every run.
+* `error_isolated_deep`
+                     -- the last clause for a copy ONTO AN EXISTING destination with entries of the wrong kind AT ANY
+                        DEPTH (Pcp/Deep.lean, Pcp/DeepSession.lean): every node of every source tree is classified by what
+                        the target holds at its place (`DTree`: arrives / regular file vs directory / directory vs regular
+                        file / directory entered, recursively); the interactive client in its repaired form and the receiver
+                        stay in step, the file system ends as `dTopFs` -- what can be written is there, an entry that cannot
+                        be written leaves no trace, what is in its way and everything below it is untouched --, and there is
+                        EXACTLY one error record per entry that cannot be written (mutual induction `session_dtree` /
+                        `session_dkids`).  Generalises `error_isolated_session` from the top level to any depth.
+* `copy_onto_anything`
+                     -- the same with NO hypothesis about what the target holds: the classification `classifyTop` of the
+                        sources against the target's file system is total (arrives / replaces a regular file / merged into a
+                        directory / kinds disagree) and always in the domain (`dOk_classify`, for every file system in which
+                        what exists lies in existing directories).  `pdshmodel pcp deep` executes exactly these definitions
+                        against the real run of every conflict and overwrite case.
+* `forward_every_target`, `forward_copy_all_targets`, `forward_target_alone`
+                     -- a FORWARD copy to N targets: the product of dsh()'s fan-out LTS (Props/C03, imported) with one
+                        receiver per target on that target's own file system (Pcp/FanOut.lean).  In every execution -- any
+                        fanout, any schedule, the byte transfers of different targets interleaved in any way -- once dsh()
+                        has returned every target of the list has had exactly one connection (`exit_after_all`), has been
+                        fed every byte of its client's stream exactly once, and its receiver is in the state `run o fs
+                        stream` all other theorems speak about; hence (`copy_roundtrip`, `copy_meets_spec` per target) every
+                        target holds the copy, acknowledged throughout, and passes the specification.  `forward_target_alone`:
+                        in ANY reachable state a target whose worker has begun its tear-down holds the complete result,
+                        wherever the other targets are (slow, hanging, not yet started).
+* Pcp/Statics.lean, Pcp/ClientStatics.lean
+                     -- what K receivers (rpdcp) resp. K client threads (pdcp) of one process share besides the file
+                        system / the read-only file list: the static objects and the process-wide calls of pcp_server.c and
+                        pcp_client.c, compared with the translation units on every run (pcp_client.c defines NONE).
 
 Modelled, not proved: the threads of the real rpdcp receiver are represented by sequential
 processing in an arbitrary order (assumption: the kernel serialises operations per path, and the
-targets' names are distinct, so the threads work on disjoint sub-trees); entries that cannot be written BELOW the
-top level of a copied tree can only exist inside directories that are already there (a merge in which the kinds
-DISAGREE somewhere down the tree): `copy_onto_existing` covers the merge when the kinds agree, `error_isolated_session`
-the disagreement at the top level; the disagreement deeper down is covered by the correspondence (pinned conflict
-cases at depth 2 and 3, session model `sess`) and by `error_isolated_open`/`copy_with_write_faults` at the byte level.
+targets' names are distinct, so the threads work on disjoint sub-trees).  `copy_onto_anything` is about the client in
+its repaired form and without write faults; kinds other than regular file and directory on the target (symbolic links:
+C12 `escapes_only_through_links`; devices, sockets: not modelled) are outside `FS`.
 A source that cannot be READ: the repaired client (da13fc3) checks every entry with access(2) while it expands the
 sources and ends before the first byte is sent (stated, not modelled: the model's trees are readable; pinned end-to-end
 case `unreadable` as uid 1000 and the four refused-source kinds).
-Not proved: several targets of a forward copy (each runs this receiver on its own file system: C03/C09).
+Forward copy: a target whose connection FAILS is outside the fan-out LTS's alphabet (a failed connect goes through the
+same operations, C03) -- its stream is empty and its receiver never runs; the statement per target depends on that
+target's own data only.  That dsh.c refines the fan-out LTS is C03's correspondence, that the remote command line is
+the one the receiver model is started with is C09's (`cmdf`/`cmdr` here).
 For the client AS FOUND a directory that cannot be created scatters its entries (finding F11-DIRFAIL-SCATTER, fixed
 in /repo: `dirfail_scatter_witness`).
 -/
@@ -1140,6 +1171,276 @@ example :
     (sink xo (sink xo xfs (send xso xsrcs)).1 (send xso xsrcs)).1 [[119], [100], [116], [101]] =
       some (.file 0o640 (some ⟨3000, 250⟩) [88]) ∧
     (∀ r ∈ (sink xo (sink xo xfs (send xso xsrcs)).1 (send xso xsrcs)).2.1, r = Reply.ack) := by
+  decide +kernel
+
+/-! ## entries of the wrong kind at any depth of a destination that already exists -/
+
+/-- **`error_isolated` for a copy onto an existing destination, at any depth** (the last clause of C11: "a file that
+cannot be ... written is reported for that host without corrupting any other file").  The user names the sources
+`items`; for each node of each source tree `DTree` says what the target holds at its place: nothing (`good`: the
+subtree arrives), a directory where the source has a regular file (`blockedFile`), a regular file where the source
+has a directory (`refusedDir`), or a directory where the source has one (`into`: entered, and the same question is
+asked for each of its entries -- to any depth).  For the interactive client in its repaired form: client and
+receiver stay in step through the whole list, the receiver consumes everything and ends at the top level; the file
+system is `dTopFs` -- every subtree that can be written is there exactly as `copy_roundtrip` describes, an existing
+directory that is entered keeps what the source does not name, and an entry that cannot be written leaves NO
+trace: what is in its way, and everything below it, is untouched (`dFs` of a blocked entry is the identity;
+`dFs_other`: nothing outside a tree's own name changes but the parent directory's time) --; and the replies are
+acknowledgements and EXACTLY ONE error record per entry that cannot be written (`dTopBad`; entries below a refused
+directory are not sent and not counted).  Generalises `error_isolated_session` (disagreement at the top level). -/
+theorem error_isolated_deep (o : Opts) (hc : CntOk o) (hnf : o.fsize = none) (so : SOpts) (co : COpts)
+    (hco : co.skipRefused = true) (hp : so.preserve = o.preserve) (fs : FS) (D : Path) (items : List (Str × DTree))
+    (budget : Nat) (hres : resolve fs o.cwd o.dest = some D) (hdir : fs.isDir D = true)
+    (hb : o.dest.length + budget < PCP_PATH_MAX) (hok : DTopOk so budget fs D items) :
+    (sessionEnd so co o fs (dTopSrcs items)).fs = dTopFs o so fs D items ∧
+    (∃ rs, (sessionEnd so co o fs (dTopSrcs items)).out.reverse = .ack :: rs ∧ RsI rs 0 (dTopBad items)) ∧
+    (sessionEnd so co o fs (dTopSrcs items)).phase = .done := by
+  have hv : VerifyOk o fs := fun _ => ⟨D, hres, hdir⟩
+  have h0 : enter o (St.init fs) o.dest =
+      { St.init fs with out := [.ack],
+                        stack := [{ targ := o.dest, targisdir := true, setimes := false, mt := default, atm := default }],
+                        phase := .start } := by
+    rw [enter_ok (p := D) hv hres hdir]
+    rfl
+  have hat : AtDir o (enter o (St.init fs) o.dest)
+      { targ := o.dest, targisdir := true, setimes := false, mt := default, atm := default } [] D := by
+    rw [h0]
+    exact ⟨rfl, rfl, rfl, hres, hdir, hv, ⟨usecOk_zero _, usecOk_zero _⟩⟩
+  have hfs0 : (enter o (St.init fs) o.dest).fs = fs := by rw [h0]; rfl
+  have hout0 : (enter o (St.init fs) o.dest).out = [.ack] := by rw [h0]
+  have hr := read_ack (s := { st := enter o (St.init fs) o.dest, sent := [], consumed := 0, failed := false,
+                              skip := 0, dead := false }) (old := []) rfl hout0
+  have hi : InSync ({ st := enter o (St.init fs) o.dest, sent := [], consumed := 0 + 1, failed := false,
+                      skip := 0, dead := false } : Sess) := ⟨rfl, rfl, by simp [hout0]⟩
+  obtain ⟨_, ⟨f2, hat2, _, _⟩, j3, _, rs, hout, hrs⟩ := session_dsrcs hc hnf so co hco hp budget [] D items
+    { st := enter o (St.init fs) o.dest, sent := [], consumed := 0 + 1, failed := false, skip := 0, dead := false }
+    _ hi hat (fun e => by cases e) hb (by show DTopOk so budget (enter o (St.init fs) o.dest).fs D items; rw [hfs0]; exact hok)
+  have hsess : (session so co o fs (expandAll (dTopSrcs items))).st =
+      ((expandAll (dTopSrcs items)).foldl (clientStep so co o)
+        { st := enter o (St.init fs) o.dest, sent := [], consumed := 0 + 1, failed := false, skip := 0,
+          dead := false }).st := by
+    unfold session
+    dsimp only
+    rw [hr]
+    simp only [Bool.not_true, Bool.false_eq_true, if_false]
+  unfold sessionEnd
+  rw [hsess]
+  generalize ((expandAll (dTopSrcs items)).foldl (clientStep so co o)
+      { st := enter o (St.init fs) o.dest, sent := [], consumed := 0 + 1, failed := false, skip := 0,
+        dead := false }).st = st3 at hat2 j3 hout
+  have hfin : finish o st3 = { st3 with stack := [], phase := .done } := by
+    unfold finish
+    simp only [hat2.phase]
+    unfold leave
+    simp only [hat2.stack]
+    rfl
+  rw [hfin]
+  refine ⟨?_, ⟨rs.reverse, ?_, ?_⟩, rfl⟩
+  · show st3.fs = _
+    rw [j3, hfs0]
+  · show st3.out.reverse = _
+    rw [hout, hout0]
+    simp
+  · exact ⟨fun r hr => hrs.1 r (List.mem_reverse.1 hr), by rw [List.count_reverse]; exact hrs.2.1,
+      by rw [List.count_reverse]; exact hrs.2.2⟩
+
+/-- **A copy onto ANYTHING** -- the last clause of C11 with no hypothesis about what the target holds.  `fs` is any
+file system (without symbolic links: Props/C12, Pcp/Links.lean) in which what exists lies in directories that exist
+(`FsClosed`); the sources are in the domain of `copy_roundtrip`; the destination resolves to a directory.  Then the
+dialogue of the repaired client with the receiver runs to its end in step, the file system is `dTopFs` of the sources
+CLASSIFIED against `fs` (`classifyTop`, total: every node of every source tree either arrives, replaces a regular
+file, is merged into a directory, or cannot be written because the kinds disagree), and the replies are
+acknowledgements plus exactly one error record per disagreement.  `dOk_classify`: the classification is always in
+the domain of `error_isolated_deep`. -/
+theorem copy_onto_anything (o : Opts) (hc : CntOk o) (hnf : o.fsize = none) (so : SOpts) (co : COpts)
+    (hco : co.skipRefused = true) (hp : so.preserve = o.preserve) (fs : FS) (hcl : FsClosed fs) (D : Path)
+    (srcs : List (Str × Tree)) (budget : Nat) (hres : resolve fs o.cwd o.dest = some D) (hdir : fs.isDir D = true)
+    (hb : o.dest.length + budget < PCP_PATH_MAX) (hsrc : SrcsOk so srcs)
+    (hgood : GoodKids budget (namedSrcs so srcs)) :
+    (sessionEnd so co o fs srcs).fs = dTopFs o so fs D (classifyTop so fs D srcs) ∧
+    (∃ rs, (sessionEnd so co o fs srcs).out.reverse = .ack :: rs ∧
+      RsI rs 0 (dTopBad (classifyTop so fs D srcs))) ∧
+    (sessionEnd so co o fs srcs).phase = .done := by
+  have h := error_isolated_deep o hc hnf so co hco hp fs D (classifyTop so fs D srcs) budget hres hdir hb
+    (dTopOk_classify so hcl budget D srcs hsrc hgood)
+  rw [classifyTop_srcs] at h
+  exact h
+
+/-- `/w/d/t` is already there and holds a DIRECTORY `x` (with a file `x/k` in it) and a regular FILE `y`; the user
+copies `t`, which holds a new file `e`, a regular file `x` and a directory `y` with a file `y/z` -/
+def dfs : FS := fun p =>
+  if p = [] then some (.dir 0o755 none)
+  else if p = [[119]] then some (.dir 0o755 none)
+  else if p = [[119], [100]] then some (.dir 0o755 none)
+  else if p = [[119], [100], [116]] then some (.dir 0o755 none)
+  else if p = [[119], [100], [116], [120]] then some (.dir 0o700 none)
+  else if p = [[119], [100], [116], [120], [107]] then some (.file 0o600 none [75])
+  else if p = [[119], [100], [116], [121]] then some (.file 0o644 none [90])
+  else none
+
+def ditems : List (Str × DTree) :=
+  [([116], .into 0o755 0 0 [([101], .good (.file 0o644 0 0 [88])), ([120], .blockedFile 0o644 0 0 [65, 66]),
+                           ([121], .refusedDir 0o755 0 0 [([122], .file 0o600 0 0 [89])])])]
+
+/-- the run: `t/e` arrives, the directory `t/x` and the file in it and the file `t/y` are what they were, nothing of
+`t/y/z` appears, and exactly two of the replies are error records -/
+example :
+    (sessionEnd sso ⟨true⟩ ro dfs (dTopSrcs ditems)).fs [[119], [100], [116], [101]] = some (.file 0o644 none [88]) ∧
+    (sessionEnd sso ⟨true⟩ ro dfs (dTopSrcs ditems)).fs [[119], [100], [116], [120]] = some (.dir 0o700 none) ∧
+    (sessionEnd sso ⟨true⟩ ro dfs (dTopSrcs ditems)).fs [[119], [100], [116], [120], [107]] = some (.file 0o600 none [75]) ∧
+    (sessionEnd sso ⟨true⟩ ro dfs (dTopSrcs ditems)).fs [[119], [100], [116], [121]] = some (.file 0o644 none [90]) ∧
+    (sessionEnd sso ⟨true⟩ ro dfs (dTopSrcs ditems)).fs [[119], [100], [116], [121], [122]] = none ∧
+    (sessionEnd sso ⟨true⟩ ro dfs (dTopSrcs ditems)).out.reverse =
+      [.ack, .ack, .ack, .ack, .err .path, .err .path, .ack] := by
+  decide +kernel
+
+/-- ... and it is in the domain of `error_isolated_deep`, whose conclusion is the run above -/
+example :
+    (sessionEnd sso ⟨true⟩ ro dfs (dTopSrcs ditems)).fs = dTopFs ro sso dfs [[119], [100]] ditems ∧
+    (∃ rs, (sessionEnd sso ⟨true⟩ ro dfs (dTopSrcs ditems)).out.reverse = .ack :: rs ∧ RsI rs 0 2) := by
+  have e116 : sentName sso [116] true = [116] := by decide +kernel
+  have h := error_isolated_deep ro ⟨by decide, by decide⟩ rfl sso ⟨true⟩ rfl rfl dfs [[119], [100]] ditems 100
+    (by decide +kernel) (by decide +kernel) (by decide) (by
+      simp only [ditems, DTopOk, DOk, DKidsOk, e116, KidNamesOk, GoodTree]
+      refine ⟨Or.inl (by decide), ⟨goodName_single _ (by decide) (by decide) (by decide) (by decide), by decide, by decide,
+        by decide, ⟨0o755, none, by decide +kernel⟩,
+        by decide, ⟨⟨goodName_single _ (by decide) (by decide) (by decide) (by decide), by decide, by decide, by decide,
+          by decide⟩, trivial, ?_⟩, by simp,
+        by decide, ⟨goodName_single _ (by decide) (by decide) (by decide) (by decide), by decide, by decide, by decide,
+          by decide, ⟨0o700, none, by decide +kernel⟩⟩, by simp,
+        by decide, ⟨goodName_single _ (by decide) (by decide) (by decide) (by decide), by decide, by decide, by decide,
+          ⟨0o644, none, [90], by decide +kernel⟩⟩, by simp, trivial⟩, by simp, trivial⟩
+      intro x hx
+      have hl := hx.length_le
+      simp only [List.length_append, List.length_cons, List.length_nil] at hl
+      unfold dfs
+      have h1 : x ≠ [] := by intro e; subst e; simp at hl
+      have h2 : x ≠ [[119]] := by intro e; subst e; simp at hl
+      have h3 : x ≠ [[119], [100]] := by intro e; subst e; simp at hl
+      have h4 : x ≠ [[119], [100], [116]] := by intro e; subst e; simp at hl
+      have h5 : x ≠ [[119], [100], [116], [120]] := by intro e; subst e; simp at hx
+      have h6 : x ≠ [[119], [100], [116], [120], [107]] := by intro e; subst e; simp at hx
+      have h7 : x ≠ [[119], [100], [116], [121]] := by intro e; subst e; simp at hx
+      simp [h1, h2, h3, h4, h5, h6, h7])
+  exact ⟨h.1, h.2.1⟩
+
+/-! ## forward copy to N targets: the fan-out LTS of C03 composed with one sender session per target -/
+
+open PdshVerif.Dsh in
+/-- **Every target of a forward copy gets exactly one complete sender session.**  In EVERY execution of the
+product of `dsh()`'s fan-out LTS (Props/C03) with one receiver per target on that target's own file system
+(Pcp/FanOut.lean) -- any fanout, either wait construct, any schedule of dispatcher and workers, the byte transfers of
+different targets interleaved in any way -- once `dsh()` has returned, for every target `i` of the list:
+the remote command was started exactly once and torn down exactly once (C03 `exit_after_all`, imported), the
+client thread wrote each byte of its stream exactly once, and the receiver on that target is in the state
+`run o fs stream`: the single-receiver run every other theorem of this file speaks about. -/
+theorem forward_every_target {v : Fan.Variant} {f : Nat} {ts : List FanOut.Target} {ls : List FanOut.PLabel}
+    {s : FanOut.PSt} (he : FanOut.PExec ts (FanOut.pinit v f ts) ls s) (hf : Fan.Final s.fan)
+    (i : Nat) (t : FanOut.Target) (ht : ts[i]? = some t) :
+    s.rcv[i]? = some (run t.o t.fs t.stream, t.stream.length) ∧
+    (FanOut.proj ls).count (.w i .connectBegin) = 1 ∧ (FanOut.proj ls).count (.w i .destroyEnd) = 1 ∧
+    ls.count (.byte i) = t.stream.length := by
+  have hfe := FanOut.proj_exec he
+  have hi : i < ts.length := (List.getElem?_eq_some_iff.1 ht).1
+  have hinv := FanOut.pinv_exec he
+  have hfi : Fan.Inv s.fan := Fan.inv_exec (Fan.inv_init v f ts.length) hfe
+  have hlen : s.fan.ws.length = ts.length := by have := (Fan.exec_params hfe).2.2; simpa [FanOut.pinit, Fan.init] using this
+  have hdone : Fan.pc s.fan i = .done := hfi.fin (by rw [hf]; rfl) i (by omega)
+  have hw : s.fan.ws[i]? = some .done := Fan.getElem?_of_getD hdone (by decide)
+  have hir : i < s.rcv.length := by rw [hinv.len]; exact hi
+  obtain ⟨r, hr⟩ : ∃ r, s.rcv[i]? = some r := ⟨_, List.getElem?_eq_getElem hir⟩
+  have hg := hinv.good i t .done r ht hw hr
+  simp only [FanOut.Good] at hg
+  obtain ⟨c1, c2, _⟩ := C03.exit_after_all hfe hf i hi
+  refine ⟨by rw [hr, hg], c1, c2, ?_⟩
+  have := FanOut.fed_count he i r hr
+  rw [hg] at this
+  exact this.symm
+
+open PdshVerif.Dsh in
+/-- **A target's copy does not wait for, and is not disturbed by, the other targets.**  In ANY reachable state of the
+product -- `dsh()` need not have returned, other targets may be anywhere in their sessions, hang, or never be
+started -- a target whose worker has begun to tear its connection down holds the result of the complete
+single-receiver run, and so does it in every later state (the same statement there). -/
+theorem forward_target_alone {v : Fan.Variant} {f : Nat} {ts : List FanOut.Target} {ls : List FanOut.PLabel}
+    {s : FanOut.PSt} (he : FanOut.PExec ts (FanOut.pinit v f ts) ls s)
+    (i : Nat) (t : FanOut.Target) (ht : ts[i]? = some t) (w : Fan.W) (hw : s.fan.ws[i]? = some w)
+    (hover : FanOut.sessionOver w = true) :
+    s.rcv[i]? = some (run t.o t.fs t.stream, t.stream.length) := by
+  have hinv := FanOut.pinv_exec he
+  have hi : i < ts.length := (List.getElem?_eq_some_iff.1 ht).1
+  have hir : i < s.rcv.length := by rw [hinv.len]; exact hi
+  obtain ⟨r, hr⟩ : ∃ r, s.rcv[i]? = some r := ⟨_, List.getElem?_eq_getElem hir⟩
+  rw [hr, FanOut.good_over hover (hinv.good i t w r ht hw hr)]
+
+open PdshVerif.Dsh in
+/-- **Every reachable target holds a copy** (`copy_roundtrip` and `copy_meets_spec` on every target of the final
+list).  The targets may differ in everything that belongs to the host -- file system, working directory, umask --;
+each satisfies the hypotheses of `copy_roundtrip` for ITS file system, and its client thread sends `send so srcs`
+(the sessions share only the pre-expanded list, which no thread writes: Pcp/ClientStatics.lean).  Then, whatever the
+schedule, after `dsh()` has returned EVERY target `i` holds `recvKids ... (namedSrcs so srcs)` below its destination,
+has acknowledged every record, and -- for the pair as repaired -- passes `Spec.checkKids` without a discrepancy. -/
+theorem forward_copy_all_targets {v : Fan.Variant} {f : Nat} {ts : List FanOut.Target} {ls : List FanOut.PLabel}
+    {s : FanOut.PSt} (he : FanOut.PExec ts (FanOut.pinit v f ts) ls s) (hf : Fan.Final s.fan)
+    (so : SOpts) (srcs : List (Str × Tree)) (budget : Nat) (hsrc : SrcsOk so srcs)
+    (hgood : GoodKids budget (namedSrcs so srcs))
+    (hall : ∀ t ∈ ts, t.stream = send so srcs ∧ CntOk t.o ∧ so.preserve = t.o.preserve ∧ t.o.fsize = none ∧
+      t.o.dest.length + budget < PCP_PATH_MAX ∧
+      ∃ D, resolve t.fs t.o.cwd t.o.dest = some D ∧ t.fs.isDir D = true ∧
+        ∀ n k, (n, k) ∈ namedSrcs so srcs → FreshBelow t.fs (D ++ [n]))
+    (i : Nat) (t : FanOut.Target) (ht : ts[i]? = some t) :
+    ∃ st D, s.rcv[i]? = some (st, (send so srcs).length) ∧ resolve t.fs t.o.cwd t.o.dest = some D ∧
+      st.fs = recvKids t.o so.subsec t.fs D (namedSrcs so srcs) ∧ (∀ r ∈ st.out, r = Reply.ack) ∧
+      (Faithful t.o so.subsec → ∀ listing : List Path, (∀ x, x ∈ listing ↔ st.fs x ≠ none) →
+        Spec.checkKids t.o.preserve st.fs listing D (namedSrcs so srcs) = []) := by
+  obtain ⟨hstream, hc, hp, hnf, hb, D, hres, hdir, hfresh⟩ := hall t (List.mem_of_getElem? ht)
+  obtain ⟨h1, _⟩ := forward_every_target he hf i t ht
+  obtain ⟨r1, r2⟩ := copy_roundtrip t.o hc hnf so hp t.fs D srcs budget hres hdir hsrc hb hgood hfresh
+  refine ⟨run t.o t.fs t.stream, D, by rw [h1, hstream], hres, ?_, ?_, ?_⟩
+  · rw [hstream]; exact r1
+  · intro r hr
+    rw [hstream] at hr
+    exact r2 r (by simp only [sink, List.mem_reverse]; exact hr)
+  · intro hfa listing hl
+    rw [hstream] at hl ⊢
+    exact copy_meets_spec t.o hc so hp hfa t.fs D srcs budget hres hdir hsrc hb hgood hfresh listing hl
+
+/-- non-vacuity: two targets with the file system, options and sources of `copy_roundtrip`'s example, fanout 2, the
+two sessions interleaved BYTE BY BYTE: the schedule is an execution of the product, `dsh()` returns, and both
+targets hold `t/e` with the source's byte, mode and time -/
+def fwdTargets : List FanOut.Target := [⟨xo, xfs, send xso xsrcs⟩, ⟨xo, xfs, send xso xsrcs⟩]
+
+open PdshVerif.Dsh.Fan FanOut.PLabel in
+def fwdSched : List FanOut.PLabel :=
+  [fan (.d .lock), fan (.d (.create 0)), fan (.d .unlock), fan (.d .lock), fan (.d (.create 1)), fan (.d .unlock),
+   fan (.w 0 .connectBegin), fan (.w 1 .connectBegin), fan (.w 0 .connectEnd), fan (.w 1 .connectEnd)] ++
+  (List.replicate (send xso xsrcs).length [byte 0, byte 1]).flatten ++
+  [fan (.w 1 .destroyBegin), fan (.w 0 .destroyBegin), fan (.w 0 .destroyEnd), fan (.w 1 .destroyEnd),
+   fan (.w 0 .lock), fan (.w 0 .signal), fan (.w 0 .unlock), fan (.w 1 .lock), fan (.w 1 .signal), fan (.w 1 .unlock),
+   fan (.d .lock), fan (.d .unlock), fan (.d .ret)]
+
+example :
+    ∃ s, FanOut.PExec fwdTargets (FanOut.pinit .whileWait 2 fwdTargets) fwdSched s ∧ Dsh.Fan.Final s.fan ∧
+      ∀ i, i < 2 → ∃ st k, s.rcv[i]? = some (st, k) ∧
+        st.fs [[119], [100], [116], [101]] = some (.file 0o640 (some ⟨3000, 250⟩) [88]) := by
+  have hsome : (FanOut.prun fwdTargets (FanOut.pinit .whileWait 2 fwdTargets) fwdSched).isSome = true := by
+    decide +kernel
+  obtain ⟨s, hs⟩ := Option.isSome_iff_exists.1 hsome
+  have hfin : ((FanOut.prun fwdTargets (FanOut.pinit .whileWait 2 fwdTargets) fwdSched).map (·.fan.dpc)) =
+      some .returned := by decide +kernel
+  have he := FanOut.pexec_of_prun fwdSched hs
+  have hf : Dsh.Fan.Final s.fan := by
+    rw [hs] at hfin
+    simpa [Dsh.Fan.Final] using hfin
+  refine ⟨s, he, hf, ?_⟩
+  intro i hi
+  have hti : fwdTargets[i]? = some ⟨xo, xfs, send xso xsrcs⟩ := by
+    match i, hi with
+    | 0, _ => rfl
+    | 1, _ => rfl
+  obtain ⟨h1, _⟩ := forward_every_target he hf i _ hti
+  refine ⟨_, _, h1, ?_⟩
+  show (sink xo xfs (send xso xsrcs)).1 [[119], [100], [116], [101]] = _
   decide +kernel
 
 end PdshVerif.Props.C11
